@@ -92,6 +92,13 @@ def handle : List String → String
     match parseNat? n, parseShape? shape, parseDim? mn, parseDim? mx with
     | some n, some shape, some mn, some mx => showLookup (symbolLookup refSymbols n shape mn mx (fail == "1"))
     | _, _, _, _ => "bad-op"
+  | ["writer", k, shape, mn, mx] =>
+    match parseNat? k, parseShape? shape, parseDim? mn, parseDim? mx with
+    | some k, some shape, some mn, some mx =>
+      match writerSymbol refSymbols k shape mn mx with
+      | .ok s => s!"{symbolWidth s}x{symbolHeight s}"
+      | .error e => "ERR:" ++ e.tag
+    | _, _, _, _ => "bad-op"
   | ["upd", shape, mn, mx, seq] =>
     match parseShape? shape, parseDim? mn, parseDim? mx, parseNatList? seq with
     | some shape, some mn, some mx, some ls => ";".intercalate (updSeq none shape mn mx ls)
